@@ -639,6 +639,17 @@ pub fn check_c12(ctx: &mut Ctx, input: &[u8]) {
         // conversions from an accepted generic packet
         let Ok(p) = &g else { return Ok(()) };
         let src = obs::packet_variant(p);
+        // the public observer of the selection: "unknown" is the variant the generic parser falls back to, and the one
+        // `Packet::from(unknown)` makes, whatever type number the bytes carry
+        if p.is_unknown() != (src == "Unknown") {
+            return Err(("dispatch".into(), format!("{src}:is_unknown"), format!("the generic parser selected variant {src} but is_unknown() is {}", p.is_unknown())));
+        }
+        if let Ok(u) = Unknown::parse(b) {
+            let p2 = Packet::from(u);
+            if !p2.is_unknown() || obs::packet_variant(&p2) != "Unknown" {
+                return Err(("from-typed".into(), "Unknown:is_unknown".into(), format!("Packet::from(Unknown) is variant {} with is_unknown() {}", obs::packet_variant(&p2), p2.is_unknown())));
+            }
+        }
         macro_rules! conv {
             ($T:ty, $name:literal) => {{
                 let direct = <$T>::parse(b);
@@ -670,8 +681,8 @@ pub fn check_c12(ctx: &mut Ctx, input: &[u8]) {
                 }
                 if let Ok(t) = a {
                     let back = Packet::from(t);
-                    if obs::packet_variant(&back) != $name {
-                        return Err(("from-typed".into(), $name.into(), format!("Packet::from gives variant {}", obs::packet_variant(&back))));
+                    if obs::packet_variant(&back) != $name || back.is_unknown() {
+                        return Err(("from-typed".into(), $name.into(), format!("Packet::from gives variant {} with is_unknown() {}", obs::packet_variant(&back), back.is_unknown())));
                     }
                 }
             }};
